@@ -80,9 +80,31 @@ def run(F):
             n += 1
             fn = b.path.split("::{closure")[0].split("::")[-1]
             iid = "operatorarg|%s" % fn
-            if _from_param(b, defs, t["args"][1], params):
+            ok = _from_param(b, defs, t["args"][1], params)
+            if ok and not b.is_closure():
+                # the operator lives in a named helper (`newton_operator(delta_rho, ..)`): the closures / functions that call the helper
+                # must pass their own parameter in that position
+                which = [p_ for p_ in sorted(params) if _from_param(b, defs, t["args"][1], {p_})]
+                for c in F.bodies:
+                    if not c.path.startswith("feos_dft::"):
+                        continue
+                    for _bj, t2 in c.calls():
+                        cb2 = F.callee_body(t2)
+                        if cb2 is None or cb2.path != b.path or not which or which[0] - 1 >= len(t2["args"]):
+                            continue
+                        cparams = set(range(2, c["arg_count"] + 1)) if c.is_closure() else \
+                            {l for l in range(2, c["arg_count"] + 1) if "ArrayBase<" in (c.lty(l) or {}).get("s", "")}
+                        n += 1
+                        if not _from_param(c, Defs(c), t2["args"][which[0] - 1], cparams):
+                            ok = False
+                            r.inst(iid + "|caller", t2["span"], "violation")
+                            r.fail(iid + "|caller", t2["span"],
+                                   "%s: the perturbation handed to %s is not the caller's own parameter (a scaled / modified copy)" % (
+                                       c.path.split("::{closure")[0].split("::")[-1], fn))
+            direct = _from_param(b, defs, t["args"][1], params)
+            if ok:
                 r.inst(iid, t["span"], "ok")
-            else:
+            elif not direct:
                 r.inst(iid, t["span"], "violation")
                 r.fail(iid, t["span"],
                        "%s: the second functional derivative is contracted with something other than the perturbation handed to the closure "
